@@ -118,6 +118,11 @@ def run_case(case, ctx):
                 raise
         n_it = len(h0.beta)
         c = case["ckpt_every"]
+        if not log0.writes and cc.read_file(ref)[3] is not None:
+            from ..runner import HarnessError
+
+            raise HarnessError("the write log saw no checkpoint although the file holds one: aspire no longer writes through utils.dump_state "
+                               "(harness needs updating; this is not a violation)")
         got_its = [w["iteration"] for w in log0.writes]
         want_its = cc.expected_write_iterations(n_it, c)
         if got_its != want_its:
